@@ -383,7 +383,7 @@ static void worker(int w, int W, uint64_t start)
         DEPTHS = depths1; NDEPTHS = 1;
         for (int root = VK_OBJ; root <= VK_ARR; root++) {
             memset(&gb, 0, sizeof gb);
-            gb.root_kind = root; gb.max_tokens = 2; gb.classes = clsb; gb.nclasses = 5; gb.names = vf_names_abc; gb.nnames = 2; gb.cb = on_doc_big;
+            gb.root_kind = root; gb.max_tokens = 2; gb.classes = clsb; gb.nclasses = 5; gb.names = vf_names_abH_get(); gb.nnames = 3; gb.cb = on_doc_big;   /* names a, b, a 32768-byte name */
             vf_gen_run(&gb);
         }
         DEPTHS = depths3; NDEPTHS = 3;
